@@ -23,7 +23,7 @@ ASSUMPTIONS = [
     'array pressure profiles: the hydrostatic clauses are asserted when the levels the code derives from the array are strictly decreasing (the statement quantifies over decreasing levels)',
     'rtol 1e-10 on altitude/gravity/scale height against the pure-python reference',
 ]
-REQUIRED = {'array:from-file': 0.01, 'array:from-file,top-first': 0.01, 'levels:ulp-spaced': 0.025, 'part:function': 0.2, 'part:model-simple': 0.2, 'part:model-array': 0.08, 'layers:1': 0.01}
+REQUIRED = {'temperatures:integer-array': 0.08, 'array:from-file': 0.008, 'array:from-file,top-first': 0.008, 'levels:ulp-spaced': 0.025, 'part:function': 0.2, 'part:model-simple': 0.2, 'part:model-array': 0.08, 'layers:1': 0.01}
 
 MJUP = 1.2668653e17 / 6.6743e-11
 RJUP = 71492000.0
@@ -49,6 +49,8 @@ def _case(draw, part=None):
         k = draw(S.ints(1, 5))
         c['T'] = draw(st.lists(st.floats(30.0, 5000.0), min_size=k, max_size=k))
         c['mu'] = draw(st.lists(st.floats(1.0, 60.0), min_size=k, max_size=k))
+        # temperatures given as whole numbers in an integer array (a profile typed in as 2000, 1800, ...): same numbers
+        c['T_form'] = draw(S.pick(['float', 'int', 'float', 'float', 'int']))
     else:
         c['world'] = draw(S.world(layers=(1, 60), nwn=(2, 4), max_active=2, extras=('CIA',), mags=['mixed']))
         c['family'] = draw(st.sampled_from(['transmission', 'emission']))
@@ -107,9 +109,14 @@ def check_function(out, c):
     T = np.interp(x, np.linspace(0, 1, len(c['T'])), c['T'])
     mu = np.interp(x, np.linspace(0, 1, len(c['mu'])), c['mu']) * 1.66053906892e-27
     out.cls('layers:%s' % ('1' if n == 1 else ('2-10' if n <= 10 else '>10')))
+    T_given = T
+    if c.get('T_form') == 'int':
+        out.cls('temperatures:integer-array')
+        T = np.round(T)
+        T_given = T.astype(np.int64)
     pl = cut(out, 'planet', Planet, planet_mass=c['mass'], planet_radius=c['radius'])
     with np.errstate(all='ignore'):
-        z, H, g, dz = cut(out, 'calculate_scale_properties', pl.calculate_scale_properties, T.copy(), Pl.copy(), mu.copy())
+        z, H, g, dz = cut(out, 'calculate_scale_properties', pl.calculate_scale_properties, T_given.copy(), Pl.copy(), mu.copy())
     zr, Hr, gr, dzr = hydro_reference(c['mass'] * MJUP, c['radius'] * RJUP, T, Pl, mu)
     if not np.all(np.isfinite(zr)) or zr[-1] > 1e3 * c['radius'] * RJUP:
         out.cls('unbound-atmosphere')
@@ -133,7 +140,7 @@ def check_function(out, c):
     out.applies('hydro-units')
     with np.errstate(all='ignore'):
         zk, Hk, gk, dzk = cut(out, 'calculate_scale_properties@km', pl.calculate_scale_properties,
-                              T.copy(), Pl.copy(), mu.copy(), 'km')
+                              T_given.copy(), Pl.copy(), mu.copy(), 'km')
     if not close(zk, z / 1000.0, rtol=1e-12) or not close(dzk, dz / 1000.0, rtol=1e-12) or not close(Hk, H / 1000.0, rtol=1e-12):
         out.fail('hydro-units', 'kilometre result is not the metre result / 1000 (max rel %.2e)' % maxrel(zk, z / 1000.0))
     out.nontrivial = bool(n >= 3 and (len(set(c['T'])) > 1 or len(set(c['mu'])) > 1))
